@@ -369,6 +369,8 @@ class ProdParser:
         self._log = cssutils.log
         if clear:
             tokenizer.clear()
+            # tokens handed back by an earlier, finished parse are stale
+            del savedTokens[:]
 
     def _texttotokens(self, text):
         """Build a generator which is the only thing that is parsed!
